@@ -30,7 +30,7 @@ for p in "$@"; do
   fi
   rc=$?
   echo "== $p rc=$rc"
-  grep -E "^(VIOLATION|KNOWN-FINDING|INCONCLUSIVE|---- violation|\[C)" /tmp/mut-out.$$ | cut -c1-400 | head -${MUT_LINES:-8}
+  grep -aE "^(VIOLATION|KNOWN-FINDING|INCONCLUSIVE|---- violation|\[C)" /tmp/mut-out.$$ | cut -c1-400 | head -${MUT_LINES:-8}
   rm -f /tmp/mut-out.$$
   [ $rc -ne 0 ] && rc_all=$rc
 done
